@@ -35,7 +35,7 @@ func init() {
 	engine.Register(&engine.Check{
 		ID:         "C07",
 		Technique:  "exhaustive enumeration of hostile inbound frame sequences (small-scope fragment sequences, all single field mutations and truncations of valid packets, short noise) against the real stack in the deterministic world, worker-isolated; liveness probes after every sequence",
-		Rule:       "fragments: all sequences of length <=2 (thorough 3) over offset {0,8,16,65528} x length {0,8,16,24} x MF {0,1} x id {1,2}; mutations: for each of 15 valid templates (ARP, ICMPv4 echo / unreachable, UDP, TCP SYN/ACK/data/RST to listener, connection and closed port, IPv6 counterparts incl. NS/NA and packet-too-big) every length/offset/count/flag field set to each boundary value and every truncation length; noise: every byte string of length <=2 and fills of every length 0..80 under each ethertype; each template and each of its field mutations delivered in two views cut at every byte (quick: mutations cut within bytes 20..104) and, for IPv4, as two fragments cut at every 8-byte boundary in both arrival orders; every 3-byte (thorough: 4-byte) TCP option area over a 12-symbol alphabet on a SYN to the listener and on a data segment of the connection; pairs of a 24-letter digest; the same runt/short frames through the repository's fd-based Ethernet endpoint over a socketpair; distinct = distinct sequence; all non-trivial",
+		Rule:       "fragments: all sequences of length <=2 (thorough 3) over offset {0,8,16,65528} x length {0,8,16,24} x MF {0,1} x id {1,2}; mutations: for each of 15 valid templates (ARP, ICMPv4 echo / unreachable, UDP, TCP SYN/ACK/data/RST to listener, connection and closed port, IPv6 counterparts incl. NS/NA and packet-too-big) every length/offset/count/flag field set to each boundary value, every value of every byte of the TCP sequence and acknowledgement numbers, and every truncation length; noise: every byte string of length <=2 and fills of every length 0..80 under each ethertype; each template and each of its field mutations delivered in two views cut at every byte (quick: mutations cut within bytes 20..104) and, for IPv4, as two fragments cut at every 8-byte boundary in both arrival orders; every 3-byte (thorough: 4-byte) TCP option area over a 12-symbol alphabet on a SYN to the listener and on a data segment of the connection; pairs of a 24-letter digest; the same runt/short frames through the repository's fd-based Ethernet endpoint over a socketpair; distinct = distinct sequence; all non-trivial",
 		Assumes:    []string{"inputs are injected at the link layer of one NIC; reassembly timeouts are not advanced inside a sequence"},
 		Jobs:       c07Jobs,
 		Run:        c07Run,
@@ -614,6 +614,18 @@ func c07Seqs(job, tier string) ([][]c07Frame, string) {
 		}
 		for _, m := range c07Mutations(ts[ti]) {
 			seqs = append(seqs, []c07Frame{m})
+		}
+		if strings.HasPrefix(ts[ti].name, "tcp-") {
+			// sequence and acknowledgement numbers: every value of each of their bytes (the
+			// listener derives table indices from them - SYN cookies)
+			for off := 24; off < 32; off++ {
+				for v := 0; v < 256; v++ {
+					b := append([]byte(nil), ts[ti].data...)
+					b[off] = byte(v)
+					ref.FixIPv4Checksum(b)
+					seqs = append(seqs, []c07Frame{{Proto: ts[ti].proto, Data: b}})
+				}
+			}
 		}
 		return seqs, "single field mutations and truncations of template " + ts[ti].name
 	case "split":
